@@ -162,7 +162,7 @@ impl Check for C08 {
             allow_empty: true,
             allow_arith_args: false,
             allow_distinct: false,
-            big_tables: false,
+            big_tables: 0,
             exact_floats: true,
         };
         let table = gen_table(t, &c);
